@@ -26,7 +26,8 @@ REQUIRED = ["angle-class.small-angle(|a|<=0.05)", "angle-class.general-angle", "
             "contract.translate_rotate.GoalRegion", "contract.translate_rotate.containment-probe",
             "part.Trajectory-in-DynamicObstacle",
             "part.Trajectory-in-Scenario", "part.LaneletNetwork-in-Scenario", "part-with-derived-occupancies",
-            "class.NetworkSharedArrays", "class.IntDtype", "class.LaneletWithPointlessStopLine"]
+            "class.NetworkSharedArrays", "class.IntDtype", "class.LaneletWithPointlessStopLine", "shared-components.move-network",
+            "shared-components.move-obstacle-1"]
 ASSUMPTIONS = ["tolerance 1e-9*(1+|p|+|t|) on points, 1e-8 on angles (mod 2pi)",
                "obstacle history lists and areas are not in the statement's list and are not compared"]
 SHARDS = {"quick": 4, "thorough": 16}
@@ -77,12 +78,19 @@ def make(name, G, rng):
         return G.trajectory_prediction()
     if name == "StaticObstacle":
         o = G.static_obstacle(5)
-        if rng.random() < 0.3:
+        c_ = rng.random()
+        if c_ < 0.3:
             o.initial_state.position = G.basic_shape()
             o.initial_state = o.initial_state
+        elif c_ < 0.55:
+            # exactly at the origin (e.g. the ego vehicle's frame): a pure rotation leaves the position where it is
+            o.initial_state = o.initial_state.translate_rotate(-np.asarray(o.initial_state.position, dtype=float), 0.0)
         return o
     if name == "DynamicObstacle":
-        return G.dynamic_obstacle(6)
+        o = G.dynamic_obstacle(6)
+        if rng.random() < 0.25 and isinstance(o.initial_state.position, np.ndarray):
+            o.initial_state = o.initial_state.translate_rotate(-np.asarray(o.initial_state.position, dtype=float), 0.0)
+        return o
     if name == "PhantomObstacle":
         return G.phantom_obstacle(7)
     if name == "EnvironmentObstacle":
@@ -304,6 +312,47 @@ def run(ctx):
             ctx.violation("C05/part/%s-in-%s/%s/%s-not-as-expected/%s" % (
                 pname, name, where, kind, "derived-occupancy" if "~occupancy" in path else "stored"),
                 "%s: expected %s got %s" % (path, e, g), wit)
+
+    # ------------------------------------------------------------------------- objects that share components
+    # A goal region given by lanelets holds the polygons of those lanelets (this is how the XML reader builds it); two
+    # obstacles may be given the same shape / state objects. Moving ONE object moves that object only.
+    from commonroad.common.util import Interval
+    from commonroad.geometry.shape import ShapeGroup
+    from commonroad.planning.goal import GoalRegion
+    import commonroad.scenario.state as st_
+    n = ctx.pick(60, 6000)
+    for i, rng in ctx.cases("shared-components", n):
+        G = Gen(rng)
+        a = rng.choice([0.3, -1.2, math.pi / 2, 3.0])
+        t = np.array([rng.uniform(-40, 40), rng.uniform(-40, 40)])
+        wit = {"translation": list(map(float, t)), "angle": float(a)}
+        try:
+            net = G.lanelet_network()
+            las = net.lanelets[: rng.randint(1, min(2, len(net.lanelets)))]
+            goal = GoalRegion([st_.CustomState(time_step=Interval(0, 10), position=ShapeGroup([la.polygon for la in las]))],
+                              {0: [la.lanelet_id for la in las]})
+            o1, o2 = G.static_obstacle(11), G.dynamic_obstacle(12, prediction_kind="trajectory")
+            o2.obstacle_shape = o1.obstacle_shape  # one shape object for two obstacles
+            before = {"goal": spatial.extract(goal), "o1": spatial.extract(o1), "o2": spatial.extract(o2),
+                      "net": spatial.extract(net)}
+            mover = ["network", "obstacle-1", "goal"][i % 3]
+            ctx.feature("shared-components.move-" + mover)
+            ctx.evaluation()
+            ctx.fingerprint(["shared", i, mover, float(a)])
+            {"network": net, "obstacle-1": o1, "goal": goal}[mover].translate_rotate(t, a)
+            after = {"goal": spatial.extract(goal), "o1": spatial.extract(o1), "o2": spatial.extract(o2),
+                     "net": spatial.extract(net)}
+        except Exception as e:  # noqa
+            ctx.violation("C05/shared-components/raises-%s" % type(e).__name__, repr(e)[:200], wit)
+            continue
+        moved = {"network": "net", "obstacle-1": "o1", "goal": "goal"}[mover]
+        for k in before:
+            if k == moved:
+                continue
+            for path, kind, e, g in spatial.compare(before[k], after[k], scale_extra=0.0)[:1]:
+                ctx.violation("C05/shared-components/moving-the-%s-also-moved-the-%s/%s" % (mover, {
+                    "goal": "goal-region", "o1": "other-obstacle", "o2": "other-obstacle", "net": "network"}[k], kind),
+                    "%s: before %s after %s" % (path, e, g), wit)
 
     # ambient workload (thorough tier): the repository's own tests with the contracts installed
     if not ctx.quick and ctx.shard == 0 and ctx.only is None:
